@@ -13,7 +13,7 @@ if ! (cd "$tmp/repo" && patch -p1 -s --no-backup-if-mismatch < "$patch" >/dev/nu
   echo "PATCH-DOES-NOT-APPLY $patch"; exit 3
 fi
 props=$(echo "$@" | tr ' ' ',')
-out=$(/verif/bin/pebcheck check --property "$props," --repo "$tmp/repo" --verif "$tmp/verif" 2>&1); code=$?
+out=$(${PEB:-/verif/bin/pebcheck} check --property "$props," --repo "$tmp/repo" --verif "$tmp/verif" 2>&1); code=$?
 if [ $code -ge 2 ]; then echo "ERROR exit=$code"; echo "$out" | tail -5; fi
 for p in "$@"; do
   c=$(echo "$out" | grep "^RESULT $p " | sed 's/.*exit=//')
